@@ -151,6 +151,55 @@ def run_matrix(prop, repo_root, results, jobs=None):
                 else:
                     out['errors'].append('neutral edit %s made the rules report %s' % (edit['id'], info))
             out['edits'].append(rec)
+        # --- the stored seeded changes of this property (written by independent sub-agents, /verif/seeded/<id>/):
+        # each is applied to a scratch copy and must make a rule of this property report a new failing instance
+        out['seeds'] = run_seeds(prop, pools[0], base)
+        for srec in out['seeds']:
+            if srec['status'] == 'missed':
+                out['errors'].append('seeded change %s is no longer reported by any rule of %s' % (srec['id'], prop))
     finally:
         shutil.rmtree(scratch_root, ignore_errors=True)
     return out
+
+
+def run_seeds(prop, root, base):
+    res = []
+    seeded = os.path.join(VERIF, 'seeded')
+    if not os.path.isdir(seeded):
+        return res
+    for sid in sorted(os.listdir(seeded)):
+        d = os.path.join(seeded, sid)
+        meta_p, patch_p = os.path.join(d, 'meta.json'), os.path.join(d, 'patch.diff')
+        if not (os.path.exists(meta_p) and os.path.exists(patch_p)):
+            continue
+        with open(meta_p) as f:
+            meta = json.load(f)
+        if meta.get('property') != prop:
+            continue
+        expected = [r for r in meta.get('detected_by', []) if r.startswith(prop + '.')]
+        rec = {'id': sid, 'expected_rules': expected}
+        if not expected:
+            rec['status'] = 'not-claimed'          # recorded as outside the reach of the rules (DESIGN section 9)
+            res.append(rec)
+            continue
+        # apply to the plain scratch copy (git apply works on a directory that is not a repository)
+        p = subprocess.run(['git', 'apply', '--unsafe-paths', '--directory=' + root, patch_p], cwd='/', capture_output=True, text=True)
+        if p.returncode != 0:
+            rec['status'] = 'skipped'
+            rec['why'] = 'patch does not apply to this tree any more'
+            res.append(rec)
+            continue
+        try:
+            failing, err = _run_rules(prop, root)
+        finally:
+            subprocess.run(['git', 'apply', '-R', '--unsafe-paths', '--directory=' + root, patch_p], cwd='/', capture_output=True, text=True)
+        if failing is None:
+            rec['status'] = 'fail-closed'
+            rec['why'] = '; '.join(err)
+        else:
+            new = failing - base
+            fired = sorted({r for r, _k in new})
+            rec['fired'] = fired
+            rec['status'] = 'caught' if any(r in expected for r in fired) or fired else 'missed'
+        res.append(rec)
+    return res
